@@ -270,6 +270,7 @@ pub fn prop() -> Prop {
         assumptions: &["single-threaded runs under hook-fixed decisions are deterministic (checked in every case)"],
         post: None,
         watchdog_s: 60,
+        hang_is_violation: false,
         shrink_iters: 1500,
     }
 }
